@@ -1,4 +1,6 @@
 import GdslModel.Model.Store
+import GdslModel.Model.Spec
+import GdslModel.Model.Search
 /-!
 Line-protocol driver: reads an annotated program on stdin, prints the model's observation
 stream (one line per request). The harness runs the same program on the real code.
@@ -46,6 +48,90 @@ def query (st : St) (u v : Nat) : String :=
   else
     s!"conn={b01 (Un.isConnected st.s u v)} fa={showOpt (findKey (a.out ++ a.inn) v)}"
 
+def showEdges (l : List (Edge Nat Nat)) : String :=
+  "[" ++ ",".intercalate (l.map fun (u, v, e) => s!"{u}>{v}:{e}") ++ "]"
+def showKeys (l : List Nat) : String := "[" ++ ",".intercalate (l.map toString) ++ "]"
+
+/-- `u>v:e,u>v:e` or `-` -/
+def parseRej (s : String) : Option (List (Nat × Nat × Nat)) :=
+  if s == "-" || s == "" then some [] else
+  (s.splitOn ",").mapM fun x =>
+    match x.splitOn ">" with
+    | [u, r] => match r.splitOn ":" with
+      | [v, e] => match u.toNat?, v.toNat?, e.toNat? with
+        | some u, some v, some e => some (u, v, e)
+        | _, _, _ => none
+      | _ => none
+    | _ => none
+
+/-- method token: `none` | `each` | `filter:REJ`; returns (acceptance predicate, is the trace observable) -/
+def parseMethod (m : String) : Option ((Nat → Nat → Nat → Bool) × Bool) :=
+  if m == "none" then some (fun _ _ _ => true, false)
+  else if m == "each" then some (fun _ _ _ => true, true)
+  else if m.startsWith "filter:" then
+    (parseRej (m.drop 7).toString).map fun rej => (fun u v e => !(rej.contains (u, v, e)), true)
+  else none
+
+def nodeVal (st : St) (k : Nat) : Int :=
+  match st.nvals.find? (fun p => p.1 = k) with
+  | some p => p.2
+  | none => 0
+
+/-- the list a traversal iterates: `fwd`/`default` = outgoing, `tr` = incoming (directed); `out ++ inn` (undirected) -/
+def adjOf (st : St) (dir : String) : Option (Nat → List (Nat × Nat)) :=
+  if !st.directed then (if dir == "fwd" then some (unAdj st.s) else none)
+  else if dir == "fwd" || dir == "default" then some (outAdj st.s)
+  else if dir == "tr" then some (inAdj st.s)
+  else none
+
+def parseKind : String → Option Kind
+  | "bfs" => some .bfs | "dfs" => some .dfs | "pfs-min" => some .pfsMin | "pfs-max" => some .pfsMax
+  | _ => none
+
+def traceStr (obs : Bool) (tr : List (Edge Nat Nat)) : String :=
+  if obs then s!" trace={showEdges tr}" else ""
+
+def doSearch (st : St) (kind dir root target method mode : String) : String :=
+  match parseKind kind, adjOf st dir, root.toNat?, parseMethod method with
+  | some k, some adj, some r, some (acc, obs) =>
+    let tgt : Option Nat := target.toNat?
+    if target != "-" && tgt.isNone then "bad-op" else
+    let fuel := st.keys.length + 2
+    if mode == "node" then
+      match searchNode adj acc (nodeVal st) k r tgt fuel with
+      | none => "out-of-fuel"
+      | some (res, run) => s!"node={showOpt res}{traceStr obs run.st.trace}"
+    else if mode == "path" || mode == "cycle" then
+      match searchPath adj acc (nodeVal st) k r tgt (mode == "cycle") fuel with
+      | none => "out-of-fuel"
+      | some (none, run) => s!"path=None{traceStr obs run.st.trace}"
+      | some (some p, run) => s!"path={showEdges p} nodes={showKeys (pathNodes p)}{traceStr obs run.st.trace}"
+    else "bad-op"
+  | _, _, _, _ => "bad-op"
+
+def doOrder (st : St) (kind dir root method mode : String) : String :=
+  match adjOf st dir, root.toNat?, parseMethod method with
+  | some adj, some r, some (acc, obs) =>
+    if kind != "pre" && kind != "post" then "bad-op" else
+    let fuel := st.keys.length + 2
+    if mode == "nodes" then
+      match orderNodes adj acc (kind == "post") r fuel with
+      | none => "out-of-fuel"
+      | some (ns, t) => s!"nodes={showKeys ns}{traceStr obs t.trace}"
+    else if mode == "edges" then
+      match orderEdges adj acc (kind == "post") r fuel with
+      | none => "out-of-fuel"
+      | some t => s!"edges={showEdges t.tree}{traceStr obs t.trace}"
+    else "bad-op"
+  | _, _, _ => "bad-op"
+
+def showOrd (a b : Int) : String := if a < b then "Less" else if a = b then "Equal" else "Greater"
+def tf (b : Bool) : String := if b then "true" else "false"
+
+/-- `Node` comparison: `==` compares keys, `<`, `cmp`, `partial_cmp` compare values -/
+def doCmp (k1 : Nat) (v1 : Int) (k2 : Nat) (v2 : Int) : String :=
+  s!"eq={tf (k1 == k2)} ne={tf (k1 != k2)} lt={tf (v1 < v2)} le={tf (v1 ≤ v2)} gt={tf (v1 > v2)} ge={tf (v1 ≥ v2)} cmp={showOrd v1 v2} pcmp=Some({showOrd v1 v2})"
+
 def stripVia (line : String) : String :=
   match line.splitOn " #" with
   | h :: _ => h
@@ -81,6 +167,11 @@ def step (st : St) (line : String) : St × String :=
   | ["q", u, v] => match u.toNat?, v.toNat? with
     | some u, some v => (st, query st u v)
     | _, _ => (st, "bad-op")
+  | ["search", kind, dir, root, target, method, mode] => (st, doSearch st kind dir root target method mode)
+  | ["order", kind, dir, root, method, mode] => (st, doOrder st kind dir root method mode)
+  | ["cmp", k1, v1, k2, v2] => match k1.toNat?, v1.toInt?, k2.toNat?, v2.toInt? with
+    | some k1, some v1, some k2, some v2 => (st, doCmp k1 v1 k2 v2)
+    | _, _, _, _ => (st, "bad-op")
   | _ => (st, "bad-op")
 
 partial def loop (h : IO.FS.Stream) (out : IO.FS.Stream) (st : St) : IO Unit := do
